@@ -248,7 +248,9 @@ def destructive_confined(fx):
                 continue
             nsites += 1
             sid = (f.path, t["span"]["file"], t["span"]["line"])
-            ok = sid in allowed.get(prim, set()) or f.path in LIBFS_HOSTS.get(prim, set())
+            # (a closure is part of the function that contains it: `retry(|| ftruncate(fd, len))`)
+            host = f.root if f.is_closure else f.path
+            ok = sid in allowed.get(prim, set()) or host in LIBFS_HOSTS.get(prim, set())
             obs.append(Ob("R-WHO", mkkey("R-WHO", f.path, prim, n, "context"), ok, q.loc_of(t), f.path,
                           "destructive primitive %s at %s %s" % (prim.split("::")[-1], q.loc_of(t),
                                                                  "is in its allowed context" if ok else
